@@ -807,8 +807,14 @@ pub fn signed_bitmessage_to_buf(
         encoder.emit_slice(previous_hash)?;
     }
 
-    // Emit the header we modified to remove the TSIG additional record.
-    Header { metadata, counts }.emit(&mut encoder)?;
+    // Emit the header as it was received, with the original ID and without the TSIG additional
+    // record. The MAC covers the header octets of the message (RFC 8945 section 4.3.2), also
+    // the bits that are not part of the parsed metadata.
+    let mut header = [0u8; 12];
+    header.copy_from_slice(&message[..12]);
+    header[..2].copy_from_slice(&metadata.id.to_be_bytes());
+    header[10..].copy_from_slice(&counts.additionals.to_be_bytes());
+    encoder.emit_slice(&header)?;
 
     // Emit all the message data between the header and the TSIG record.
     encoder.emit_slice(&message[start_data..end_data])?;
